@@ -3,6 +3,7 @@ package main
 import (
 	"fmt"
 	"os"
+	"syscall"
 	"path/filepath"
 	"sort"
 	"strings"
@@ -226,6 +227,10 @@ func runC35(t *testing.T, tp *simrt.Tape, keepTrace bool) hx.Result {
 				plan  simos.Plan
 			}
 			vs := []variant{{"fail", simos.Plan{FailAt: op.K}}}
+			if op.Name == "write" || op.Name == "createtemp" {
+				// the disk fills up: this and every later create/write fails with ENOSPC
+				vs = append(vs, variant{"disk-full", simos.Plan{FailFrom: op.K, FailKinds: simos.DiskFull, FailErr: syscall.ENOSPC}})
+			}
 			if op.Mut {
 				vs = append(vs, variant{"kill-before", simos.Plan{CrashAt: op.K}})
 				if op.Name == "write" && op.Size > 1 {
